@@ -843,6 +843,22 @@ for _blanks in (1, 2, 3):
 FINAL_EOL = 'deleted-final-line-end'
 
 
+_DEC_NUMERAL = re.compile(r'(?<![A-Za-z0-9_])([0-9]+)(?![A-Za-z0-9_])')
+_HEX_NUMERAL = re.compile(r'(?<![A-Za-z0-9_])0x([0-9A-F]+)(?![A-Za-z0-9_])')
+
+
+def respell_numerals(text, rng):
+	"""The same document with some numerals written with leading zeros (decimal `0012`, hex `0x001F`); comment lines are left alone."""
+	lines, eol_text, terminated = split_lines(text)
+	result = []
+	for line in lines:
+		if not line.lstrip(' \t').startswith('#') and 'import ' not in line:
+			line = _HEX_NUMERAL.sub(lambda m: '0x' + '0' * rng.choice([0, 1, 2]) + m.group(1), line)
+			line = _DEC_NUMERAL.sub(lambda m: m.group(1) if m.group(0).startswith('0x') else '0' * rng.choice([0, 1, 1, 3]) + m.group(1), line)
+		result.append(line)
+	return join_lines(result, eol_text, terminated)
+
+
 def split_lines(text):
 	"""(physical lines without line ends, line end, text ends with a line end)"""
 	eol_text = '\r\n' if '\r\n' in text else '\n'
@@ -978,6 +994,12 @@ def run(check, unrecognised):
 		count_forms(ds, style, forms)
 		cases.append({'kind': 'random', 'index': index, 'ds': ds, 'style': style, 'text': render(style, ds)})
 	check.extra['input_forms'] = dict(sorted(forms.items()))
+	# other spellings of the same numerals (DEC_NUMBER is DIGIT+, HEX_NUMBER is 0x(A-F|DIGIT)+: leading zeros are part of the language):
+	# the descriptors must not change.  These texts are not renderings of `render`, so they are outside parse_render and covered by D / P only.
+	for case in [c for c in cases if c['kind'] == 'random'][:150 if check.tier == 'quick' else 3000]:
+		respelt = respell_numerals(case['text'], rng)
+		if respelt != case['text']:
+			cases.append({'kind': 'respelt', 'index': case['index'], 'ds': case['ds'], 'style': case['style'], 'text': respelt})
 	corrupt_from = cases[:84:7] + [c for c in cases if c['kind'] == 'random'][:40 if check.tier == 'quick' else 400]
 	for case in corrupt_from:
 		for name, site, bad_text in corruptions(case['text'], rng, 1):
@@ -1004,7 +1026,7 @@ def run(check, unrecognised):
 	for case, impl, back, slot in zip(cases, impls, backs, slots):
 		kind = case['kind']
 		label = kind if kind != 'corrupted' else 'corrupted:' + case['operator']
-		if kind == 'random':
+		if kind in ('random', 'respelt'):
 			label += ':' + ('crlf' if case['style']['crlf'] else 'lf') + ':' + ('reject' if impl[0] != 'ok' else 'ok')
 		check.case(label, hashlib.sha256(case['text'].encode('utf8')).hexdigest())
 		difference = compare_parse(case['text'], impl, outs[slot])
@@ -1022,13 +1044,13 @@ def run(check, unrecognised):
 				problem = ('shipped-file-rejected:' + case['path'], f'shipped schema {case["path"]} does not parse: {impl[1:]}')
 			else:
 				problem = printback_problem(impl[2])
-		elif kind == 'random':
+		elif kind in ('random', 'respelt'):
 			problem = truth_problem(case['ds'], case['style'], case['text'], impl)
 			if problem is None:
 				problem = printback_problem(impl[2])
 		if problem:
 			check.fail(problem[0], problem[1], {
-				'case': {'kind': kind, 'path': case.get('path'), 'text': case['text'], 'expected': c_items(case['ds']) if kind == 'random' else None,
+				'case': {'kind': kind, 'path': case.get('path'), 'text': case['text'], 'expected': c_items(case['ds']) if kind in ('random', 'respelt') else None,
 					'crlf': bool(case.get('style', {}).get('crlf'))},
 				'how': 'run.py replay <this file>: parses the text with create_cats_lark_parser(), compares with `expected`, prints the declarations back and parses again'})
 	for case, impl in list(zip(cases, impls))[::max(1, len(cases) // 6)]:
